@@ -61,28 +61,37 @@ type opT struct {
 	name   string
 	mode   uint8
 	toks   [3]tok
+	extra  []tok // further tokens (pair cases: the second operation's calls continue the numbering)
 	result string
 }
 
 func toksSx(ts [3]tok) sx.S { return sx.L(sx.I(ts[0].num()), sx.I(ts[1].num()), sx.I(ts[2].num())) }
 
+func (o *opT) allToks() sx.S {
+	l := []sx.S{}
+	for _, t := range append(o.toks[:], o.extra...) {
+		l = append(l, sx.I(t.num()))
+	}
+	return sx.List(l)
+}
+
 func (o *opT) sexp() sx.S {
 	f := func(v uint32) sx.S { return sx.U(uint64(v)) }
 	switch o.kind {
 	case "auth":
-		return sx.L(sx.Sym("auth"), f(o.fid), toksSx(o.toks))
+		return sx.L(sx.Sym("auth"), f(o.fid), o.allToks())
 	case "attach":
-		return sx.L(sx.Sym("attach"), f(o.fid), f(o.fid2), toksSx(o.toks))
+		return sx.L(sx.Sym("attach"), f(o.fid), f(o.fid2), o.allToks())
 	case "walk":
-		return sx.L(sx.Sym("walk"), f(o.fid), f(o.fid2), sx.Strs(o.names), toksSx(o.toks))
+		return sx.L(sx.Sym("walk"), f(o.fid), f(o.fid2), sx.Strs(o.names), o.allToks())
 	case "open":
-		return sx.L(sx.Sym("open"), f(o.fid), sx.I(int64(o.mode)), toksSx(o.toks))
+		return sx.L(sx.Sym("open"), f(o.fid), sx.I(int64(o.mode)), o.allToks())
 	case "create":
-		return sx.L(sx.Sym("create"), f(o.fid), sx.Str(o.name), sx.I(int64(o.mode)), toksSx(o.toks))
+		return sx.L(sx.Sym("create"), f(o.fid), sx.Str(o.name), sx.I(int64(o.mode)), o.allToks())
 	case "stop":
-		return sx.L(sx.Sym("stop"), toksSx(o.toks))
+		return sx.L(sx.Sym("stop"), o.allToks())
 	default: // read write stat wstat clunk remove
-		return sx.L(sx.Sym(o.kind), f(o.fid), toksSx(o.toks))
+		return sx.L(sx.Sym(o.kind), f(o.fid), o.allToks())
 	}
 }
 
@@ -101,7 +110,7 @@ type callRec struct {
 type world struct {
 	mu      sync.Mutex
 	nextID  int
-	toks    [3]tok
+	toks    []tok
 	cur     int
 	calls   []callRec
 	handed  []*hEnt // during the current operation
@@ -440,6 +449,7 @@ type seqRun struct {
 	branches   []string
 	hung       bool
 	lockedSeen map[uint32]bool
+	pair       string // "stopwait" / "queued": the last two operations ran at the same time
 	inflight   string // kind of the operation that was in flight when Stop was called ("" = ordinary sequence)
 	diverged   bool   // the reference table no longer describes the session (after the first C08 failure)
 }
@@ -704,7 +714,13 @@ func rowsSx(table []p9p.VerifFid) sx.S {
 func callsSx(calls []callRec, sorted bool) sx.S {
 	calls = append([]callRec{}, calls...)
 	if sorted {
-		sort.SliceStable(calls, func(i, j int) bool { return calls[i].id < calls[j].id })
+		key := func(c callRec) int {
+			if c.name == "attach" {
+				return 0
+			}
+			return c.id + 1
+		}
+		sort.SliceStable(calls, func(i, j int) bool { return key(calls[i]) < key(calls[j]) })
 	}
 	cl := make([]sx.S, len(calls))
 	for i, c := range calls {
@@ -746,7 +762,7 @@ func resSx(o *opT, out outcome, hung bool) sx.S {
 func (r *seqRun) launch(o *opT, gated bool) chan outcome {
 	w := r.w
 	w.mu.Lock()
-	w.toks, w.cur, w.calls, w.handed, w.events = o.toks, 0, nil, nil, nil
+	w.toks, w.cur, w.calls, w.handed, w.events = append(o.toks[:], o.extra...), 0, nil, nil, nil
 	w.gateArmed, w.gateHit = gated, false
 	if gated {
 		w.entered, w.gateOpen = make(chan struct{}, 1), make(chan struct{})
@@ -1105,32 +1121,10 @@ func runInflight(g *prng.R) *seqRun {
 	if g.Chance(35, 100) {
 		want = extKinds[g.Intn(len(extKinds))]
 	}
-	// an operation of the wanted kind that will reach the file system
-	reaches := func(o *opT) bool {
-		b := r.ref[o.fid]
-		switch o.kind {
-		case "attach":
-			return o.fid2 == NOFID && o.fid != NOFID && b == nil
-		case "stat", "wstat", "clunk", "remove":
-			return b != nil
-		case "open":
-			return b != nil && !b.open
-		case "read":
-			return b != nil && b.open && b.mode&3 != 1
-		case "write":
-			return b != nil && b.open && !b.h.dir && (b.mode&3 == 1 || b.mode&3 == 2)
-		case "create":
-			return b != nil && b.h.dir && o.name == "n"
-		case "walk":
-			return b != nil && validNames(o.names) && (len(o.names) == 0 || b.h.dir) && !(len(o.names) == 0 && o.fid2 == o.fid) &&
-				(o.fid2 == o.fid || (o.fid2 != NOFID && r.ref[o.fid2] == nil))
-		}
-		return false
-	}
 	var o *opT
 	for i := 0; i < 3000; i++ {
 		o = r.genOp(g)
-		if o.kind == want && reaches(o) {
+		if o.kind == want && r.reaches(o) {
 			break
 		}
 	}
@@ -1246,7 +1240,324 @@ func runInflight(g *prng.R) *seqRun {
 	return r
 }
 
+// ---------------------------------------------------------------- two operations at once
+
+// launchRaw starts o beside an operation already running: the world's call log and token
+// cursor go on (the k-th file-system call of the pair takes the k-th token).
+func (r *seqRun) launchRaw(o *opT) chan outcome {
+	r.ops = append(r.ops, o)
+	done := make(chan outcome, 1)
+	go func() {
+		defer func() {
+			if e := recover(); e != nil {
+				done <- outcome{panicked: fmt.Sprint(e)}
+			}
+		}()
+		done <- invoke(context.Background(), r.sess, o)
+	}()
+	return done
+}
+
+// pickOp draws operations until one of the wanted kinds that reaches the file system comes up.
+func (r *seqRun) pickOp(g *prng.R, kinds []string, ok func(*opT) bool) *opT {
+	for i := 0; i < 4000; i++ {
+		o := r.genOp(g)
+		for _, k := range kinds {
+			if o.kind == k && ok(o) {
+				return o
+			}
+		}
+	}
+	return nil
+}
+
+func (r *seqRun) reaches(o *opT) bool {
+	b := r.ref[o.fid]
+	switch o.kind {
+	case "attach":
+		return o.fid2 == NOFID && o.fid != NOFID && b == nil
+	case "stat", "wstat", "clunk", "remove":
+		return b != nil
+	case "open":
+		return b != nil && !b.open
+	case "read":
+		return b != nil && b.open && b.mode&3 != 1
+	case "write":
+		return b != nil && b.open && !b.h.dir && (b.mode&3 == 1 || b.mode&3 == 2)
+	case "create":
+		return b != nil && b.h.dir && o.name == "n"
+	case "walk":
+		return b != nil && validNames(o.names) && (len(o.names) == 0 || b.h.dir) && !(len(o.names) == 0 && o.fid2 == o.fid) &&
+			(o.fid2 == o.fid || (o.fid2 != NOFID && r.ref[o.fid2] == nil))
+	}
+	return false
+}
+
+// pairOracle: the release accounting once everything has returned (and Stop has run).
+func (r *seqRun) pairOracle(pfx, tag string, o1 *opT, out1, out2 outcome, wantEmpty bool) {
+	w := r.w
+	bad := func(what, text string) {
+		r.fail("C13", pfx+what+":"+tag, fmt.Sprintf("%s beside %s: %s", r.ops[len(r.ops)-1].String(), o1.String(), text))
+	}
+	if out1.panicked != "" {
+		bad("panic", "the first operation panicked: "+out1.panicked)
+	}
+	if out2.panicked != "" {
+		bad("panic", "the second operation panicked: "+out2.panicked)
+	}
+	for _, e := range r.table() {
+		if e.Locked {
+			bad("left-locked", fmt.Sprintf("fid %d is still locked after everything has returned", e.Fid))
+		} else if wantEmpty && e.Bound {
+			bad("still-bound", fmt.Sprintf("fid %d is still bound after Stop and both operations have returned", e.Fid))
+		} else if !e.Bound {
+			bad("left-reserved", fmt.Sprintf("fid %d is left reserved but unbound", e.Fid))
+		}
+	}
+	for _, ev := range w.events {
+		i := strings.Index(ev, "|")
+		switch k := ev[:i]; {
+		case strings.HasPrefix(k, "session.release.double"):
+			bad("double-release", ev[i+1:])
+		case strings.HasPrefix(k, "session.use-after-release"):
+			bad("use-after-release", ev[i+1:])
+		default:
+			bad("other", ev[i+1:])
+		}
+	}
+	if wantEmpty {
+		for _, h := range w.all {
+			if h.everBound && h.released == 0 {
+				bad("leak", fmt.Sprintf("entry %d was bound to a fid and is never released", h.id))
+			}
+		}
+	}
+}
+
+// runStopWait: Stop is blocked on the fid reserved (or locked) by an Attach/Walk held inside
+// the file system - which may then fail and roll its reservation back - while a second
+// operation binds another fid; then the gate opens.  After all three have returned nothing
+// may be bound and everything ever bound must have been released once.
+// Model: setup; op1; op2; stop, run one after the other (the fids are disjoint).
+func runStopWait(g *prng.R) *seqRun {
+	w := &world{}
+	r := &seqRun{w: w, sess: p9p.SFileSys(w), ref: map[uint32]*rbind{}, lockedSeen: map[uint32]bool{}}
+	n := 0
+	if g.Chance(55, 100) {
+		n = g.Range(1, 8)
+	}
+	for i := 0; i < n && !r.hung; i++ {
+		if o := r.genOp(g); o.kind != "stop" {
+			r.step(o)
+		}
+	}
+	if r.hung {
+		return r
+	}
+	o1 := r.pickOp(g, []string{"attach", "walk"}, func(o *opT) bool { return r.reaches(o) && (o.kind == "attach" || o.fid2 != o.fid) })
+	if o1 == nil {
+		o1 = &opT{kind: "attach", fid: 3, fid2: NOFID}
+		if r.ref[3] != nil {
+			return r
+		}
+	}
+	if g.Chance(65, 100) {
+		o1.toks[0].fail = 1 // the reservation is rolled back
+	}
+	o2 := &opT{kind: "attach", fid2: NOFID}
+	for _, f := range []uint32{100, 0, 1, 2, 3} {
+		if r.ref[f] == nil && f != o1.fid && f != o1.fid2 {
+			o2.fid = f
+		}
+	}
+	if r.ref[o2.fid] != nil || o2.fid == o1.fid || o2.fid == o1.fid2 {
+		return r
+	}
+	for i := range o2.toks {
+		o2.toks[i] = genTok(g, "attach", 0)
+	}
+	o1.extra = append([]tok{}, o2.toks[:]...)
+	// the k-th call of the pair takes token k: op1's held call is call 0, op2's Attach call 1
+	o1.toks[1], o1.toks[2], o1.extra = o2.toks[0], o2.toks[1], []tok{o2.toks[2]}
+	hang := time.Duration(*hangMs) * time.Millisecond
+	done1 := r.launch(o1, true)
+	var out1, out2 outcome
+	select {
+	case <-w.entered:
+	case out1 = <-done1:
+		w.mu.Lock()
+		w.gateArmed = false
+		w.mu.Unlock()
+		r.record(o1, out1)
+		if !r.hung {
+			r.step(&opT{kind: "stop"})
+			r.finish()
+		}
+		return r
+	case <-time.After(hang):
+		r.hung = true
+		r.record(o1, out1)
+		return r
+	}
+	r.pair = "stopwait"
+	w.mu.Lock()
+	w.stopActive = true
+	w.mu.Unlock()
+	stopDone := make(chan struct{})
+	go func() {
+		defer close(stopDone)
+		r.sess.Stop(nil)
+	}()
+	stopObs := "blocked"
+	select {
+	case <-stopDone:
+		stopObs = "returned"
+	case <-time.After(80 * time.Millisecond):
+	}
+	done2 := r.launchRaw(o2)
+	select {
+	case out2 = <-done2:
+	case <-time.After(hang):
+		r.hung = true
+	}
+	close(w.gateOpen)
+	if !r.hung {
+		select {
+		case out1 = <-done1:
+		case <-time.After(hang):
+			r.hung = true
+		}
+	}
+	if !r.hung {
+		select {
+		case <-stopDone:
+		case <-time.After(hang):
+			r.hung = true
+		}
+	}
+	w.mu.Lock()
+	defer w.mu.Unlock()
+	res1, res2 := resSx(o1, out1, r.hung), resSx(o2, out2, r.hung)
+	r.branches = append(r.branches, "stopwait-"+o1.kind+":"+o1.result+"/"+o2.result)
+	r.obs = append(r.obs, sx.L(res1, res2, rowsSx(r.table()), callsSx(w.calls, true)))
+	if r.hung {
+		r.fail("C13", "session.stop.inflight2:hang:"+o1.kind, fmt.Sprintf("Stop beside %s and %s: something did not return", o1.String(), o2.String()))
+		return r
+	}
+	if stopObs == "returned" {
+		r.fail("C13", "session.stop.inflight2:not-waited:"+o1.kind, fmt.Sprintf("Stop returned while %s was still inside the file system", o1.String()))
+	}
+	r.pairOracle("session.stop.inflight2:", o1.kind, o1, out1, out2, true)
+	return r
+}
+
+// runQueued: operation 1 is held inside its first file-system call (holding its fid's lock)
+// while operation 2 on the same fid has looked the fid up and waits for that lock; then the
+// gate opens.  Operation 2 must see what operation 1 left behind - in particular an unbound
+// fid if operation 1 unbound it - and must not touch an entry operation 1 released.
+// Model: setup; op1; op2; stop, one after the other (the lock serialises them).
+func runQueued(g *prng.R) *seqRun {
+	w := &world{}
+	r := &seqRun{w: w, sess: p9p.SFileSys(w), ref: map[uint32]*rbind{}, lockedSeen: map[uint32]bool{}}
+	n := g.Range(1, 10)
+	for i := 0; i < n && !r.hung; i++ {
+		if o := r.genOp(g); o.kind != "stop" {
+			r.step(o)
+		}
+	}
+	if r.hung {
+		return r
+	}
+	kinds1 := []string{"create", "create", "walk", "open", "stat", "read", "clunk", "remove", "attach", "write", "wstat"}
+	want := kinds1[g.Intn(len(kinds1))]
+	o1 := r.pickOp(g, []string{want}, r.reaches)
+	if o1 == nil {
+		return r
+	}
+	if o1.kind == "create" && g.Chance(70, 100) {
+		// the new directory cannot be opened: Create rolls back and unbinds the fid
+		o1.toks[0] = tok{fail: 0, dir: true}
+		o1.toks[1].fail = 1 + g.Intn(2)
+	}
+	kinds2 := []string{"stat", "wstat", "read", "write", "open", "clunk", "remove", "walk", "create"}
+	o2 := r.pickOp(g, []string{kinds2[g.Intn(len(kinds2))]}, func(*opT) bool { return true })
+	if o2 == nil {
+		return r
+	}
+	o2.fid = o1.fid
+	o1.extra = append([]tok{}, o2.toks[:]...)
+	hang := time.Duration(*hangMs) * time.Millisecond
+	done1 := r.launch(o1, true)
+	var out1, out2 outcome
+	select {
+	case <-w.entered:
+	case out1 = <-done1:
+		w.mu.Lock()
+		w.gateArmed = false
+		w.mu.Unlock()
+		r.record(o1, out1)
+		if !r.hung {
+			r.step(&opT{kind: "stop"})
+			r.finish()
+		}
+		return r
+	case <-time.After(hang):
+		r.hung = true
+		r.record(o1, out1)
+		return r
+	}
+	r.pair = "queued"
+	done2 := r.launchRaw(o2)
+	time.Sleep(40 * time.Millisecond) // let it reach the lock; if it has not, it simply runs afterwards
+	close(w.gateOpen)
+	select {
+	case out1 = <-done1:
+	case <-time.After(hang):
+		r.hung = true
+	}
+	if !r.hung {
+		select {
+		case out2 = <-done2:
+		case <-time.After(hang):
+			r.hung = true
+		}
+	}
+	tag := o1.kind + "+" + o2.kind
+	w.mu.Lock()
+	res1, res2 := resSx(o1, out1, r.hung), resSx(o2, out2, r.hung)
+	r.branches = append(r.branches, "queued-"+o1.kind+":"+o1.result+"/"+o2.kind+":"+o2.result)
+	r.obs = append(r.obs, sx.L(res1, res2, rowsSx(r.table()), callsSx(w.calls, false)))
+	if r.hung {
+		r.fail("C13", "session.queued:hang:"+tag, fmt.Sprintf("%s queued behind %s: something did not return", o2.String(), o1.String()))
+		w.mu.Unlock()
+		return r
+	}
+	r.pairOracle("session.queued:", tag, o1, out1, out2, false)
+	w.mu.Unlock()
+	if out1.panicked != "" || out2.panicked != "" {
+		r.hung = true
+		return r
+	}
+	r.step(&opT{kind: "stop"})
+	r.finish()
+	return r
+}
+
 func (r *seqRun) caseSexp(upto int) sx.S {
+	if r.pair != "" {
+		// (stopwait|queued (setup ...) op1 op2 [stop]): op1 and op2 ran at the same time
+		k := len(r.ops) - 2
+		if r.pair == "queued" && r.ops[len(r.ops)-1].kind == "stop" {
+			k = len(r.ops) - 3
+		}
+		if upto >= k+1 {
+			var setup []sx.S
+			for _, o := range r.ops[:k] {
+				setup = append(setup, o.sexp())
+			}
+			return sx.L(sx.Sym(r.pair), sx.List(setup), r.ops[k].sexp(), r.ops[k+1].sexp())
+		}
+	}
 	if r.inflight != "" && upto >= len(r.ops)-1 {
 		// (inflight (setup ...) op): the last operation is held in its first
 		// file-system call while Stop runs
@@ -1276,7 +1587,7 @@ func main() {
 	r.Rule = "random operation sequences (1..40 operations + a final stop) over fids {0,1,2,3,100,NOFID}: attach/walk/open/create/read/write/stat/wstat/clunk/remove/auth/stop, fids biased towards the state in which the operation is meaningful, name lists of 0..4 elements (5% unsafe), every file-system call outcome drawn from per-operation tokens (20% failures: error, nil result, nil File). A sequence is non-trivial when at least three operations succeeded; distinct by canonical case text."
 	rng := prng.New(r.Seed)
 	nseq := r.N(1000, 30000)
-	gens := make([]*prng.R, nseq+r.N(300, 4000))
+	gens := make([]*prng.R, nseq+r.N(300, 4000)+2*r.N(250, 3000))
 	for i := range gens {
 		gens[i] = rng.Fork()
 	}
@@ -1285,10 +1596,11 @@ func main() {
 		pinned = append(pinned, runFixed(ops))
 	}
 	ninfl := r.N(300, 4000)
-	results := make([]*seqRun, nseq+ninfl)
+	npair := r.N(250, 3000) // each of the two pair families
+	results := make([]*seqRun, nseq+ninfl+2*npair)
 	var wg sync.WaitGroup
-	next := make(chan int, nseq+ninfl)
-	for i := 0; i < nseq+ninfl; i++ {
+	next := make(chan int, nseq+ninfl+2*npair)
+	for i := 0; i < nseq+ninfl+2*npair; i++ {
 		next <- i
 	}
 	close(next)
@@ -1299,8 +1611,12 @@ func main() {
 			for i := range next {
 				if i < nseq {
 					results[i] = runSeq(gens[i])
-				} else {
+				} else if i < nseq+ninfl {
 					results[i] = runInflight(gens[i])
+				} else if i < nseq+ninfl+npair {
+					results[i] = runStopWait(gens[i])
+				} else {
+					results[i] = runQueued(gens[i])
 				}
 			}
 		}()
@@ -1337,7 +1653,8 @@ func main() {
 		}
 	}
 	delete(r.Hist, "seq")
-	r.Hist["sequences"] = nseq + len(pinned) + ninfl
+	r.Hist["sequences"] = nseq + len(pinned) + ninfl + 2*npair
+	r.Extra["two_operations_at_once_cases"] = 2 * npair
 	r.Extra["stop_with_operation_in_flight_cases"] = ninfl
 	r.Extra["operations"] = nops
 	r.Extra["sequences_ending_in_hang"] = nhang
